@@ -13,4 +13,4 @@ Extraction "extracted/tsbatch/model.ml" Byte.of_N Byte.to_N
   timed_out_message min_grace grace_divisor grace_reserve
   remove_all_at remove_all_now remove_all_chmods_dirs_only gget rm_path symlink_at
   run_calls run_calls_now single_call wos_return fg_exec_gen interrupt_error_wins grace_period_is_local
-  script_ctx_deadline fg_params_at child_env setup_env defers_verdict exec_env_appends_pwd ctx_created_once_in_runt early_cleanup_only_without_scripts.
+  script_ctx_deadline fg_params_at child_env setup_env defers_verdict exec_env_appends_pwd ctx_created_once_in_runt early_cleanup_only_without_scripts deferred_failnow_caught defers_verdict_gen.
